@@ -232,6 +232,16 @@ Constants::Ethernet::e pdu_flag_to_ether_type(PDU::PDUType flag) {
     }
 }
 
+Constants::Ethernet::e pdu_to_ether_type(const PDU& pdu) {
+    // PPPoE uses one ether type per stage: session packets are the ones with code 0
+    if (pdu.pdu_type() == PDU::PPPOE) {
+        const PPPoE& pppoe = static_cast<const PPPoE&>(pdu);
+        return (pppoe.code() == 0) ? Constants::Ethernet::PPPOES
+                                   : Constants::Ethernet::PPPOED;
+    }
+    return pdu_flag_to_ether_type(pdu.pdu_type());
+}
+
 PDU::PDUType ether_type_to_pdu_flag(Constants::Ethernet::e flag) {
     switch (flag) {
         case Constants::Ethernet::IP:
